@@ -3,13 +3,15 @@
 import json, os, sys
 sys.path.insert(0, os.path.dirname(os.path.abspath(__file__)))
 import importlib
+if len(sys.argv) > 1:
+    sys.exit("usage: tools/gen_manifest.py   (no arguments; rewrites MANIFEST.json)")
 import manifest_src as M
 root = os.path.dirname(os.path.dirname(os.path.abspath(__file__)))
 sys.path.insert(0, root)
 # a property is claimed when props/cXX.py exists and defines MANIFEST = dict(text=, note=, technique=)
 for i in range(1, 21):
     pid = "C%02d" % i
-    if os.path.exists(os.path.join(root, "props", pid.lower() + ".py")):
+    if pid in M.INTEGRATED and os.path.exists(os.path.join(root, "props", pid.lower() + ".py")):
         mod = importlib.import_module("props." + pid.lower())
         if getattr(mod, "MANIFEST", None):
             M.CLAIMED[pid] = mod.MANIFEST
